@@ -2,6 +2,7 @@
 import os
 
 from translate import templates
+from vlib import fingerprint
 
 
 def run(ctx):
@@ -10,12 +11,16 @@ def run(ctx):
         "translate/templates.py (fail-closed ast translator of GateKindDecomposer templates), validated by corr_C01.py",
         "documented gate matrices in gates.py as the specification (coq/lib/Rsem.v)",
         "numpy oracle harness/oracle.py for the failing-input search; binary64 rounding not modelled",
-        "partial: KAK/SU(2) numeric bodies, Pauli-string decomposers, fusers, snapping passes, Quantinuum/IonQ native "
+        "hand model coq/model/Period.v of NormalizeRotationTranspiler._normalize (real mod), tied by corr_C01.py and an AST "
+        "fingerprint",
+        "partial: KAK/SU(2) numeric bodies, Pauli-string decomposers, epsilon-snapping passes, Quantinuum/IonQ native "
         "transpilers are covered by the sweep only",
     ]
     ctx.translate("templates", templates.run, os.path.join(ctx.work, "gen"),
                   os.path.join(ctx.work, "templates.json"))
     ctx.translate("fusers", templates.run_fusers, os.path.join(ctx.work, "gen"), os.path.join(ctx.work, "fusers.json"))
+    fingerprint.check(ctx, "packages/circuit/quri_parts/circuit/transpile/fuse.py",
+                      ["NormalizeRotationTranspiler._normalize", "NormalizeRotationTranspiler.decompose"])
     ctx.coq(["templates.v", "fusers.v"], ["C01.v"])
     if os.path.exists(os.path.join(ctx.work, "templates.json")):
         ctx.harness("corr_C01.py", kind="corr")
